@@ -217,8 +217,13 @@ def _decl(t, inner, lang):
     if isinstance(t, (Typedef,)):
         return ("%s %s" % (t.name, inner)).rstrip()
     if isinstance(t, Enum):
+        if t.name is None:
+            return ("enum { %s } %s" % (", ".join("%s = %s" % (n, _lit(v)) for n, v in t.enumerators), inner)).rstrip()
         return ("%s %s" % (t.spec(), inner)).rstrip()
     if isinstance(t, Record):
+        if t.name is None:
+            # anonymous aggregate defined in place (behind a pointer, a qualifier, as an array element ...)
+            return ("%s {\n%s\n  }%s %s" % (t.kind, _render_record_body(t, lang, "    "), _attrs(t), inner)).rstrip()
         if lang == "cxx":
             # '::' avoids the injected-class-name of a privately inherited base
             return ("::%s %s" % (t.name, inner)).rstrip()
@@ -264,6 +269,7 @@ class Function(object):
         self.weak = False
         self.visibility = None      # None | hidden | protected
         self.version = None         # (node, is_default)
+        self.old_versions = []      # functions with a default version: further, non-default version nodes of the same name
         self.debug = True           # False: lives in a TU compiled without -g
         self.ifunc = False
 
@@ -577,11 +583,20 @@ def render(prog):
                 # non-default version: the definition lives under an implementation name made
                 # local by the version script, and is exported as name@NODE only
                 defname = f.name + "__v"
+            elif f.version and f.version[1] and getattr(f, "old_versions", []):
+                # several versions of one name: every implementation lives under its own local name
+                defname = f.name + "__n"
             defs.append("%s%s%s\n{\n%s\n}" % (st, a, fn_proto(f, lang, defname), _body(f, lang)))
             for an, weak in (f.aliases if lang == "c" else []):
                 defs.append("extern __typeof__(%s) %s __attribute__((alias(\"%s\")%s));" % (defname, an, defname, ", weak" if weak else ""))
             if f.version and not f.version[1]:
                 defs.append('__asm__(".symver %s,%s@%s");' % (defname, f.name, f.version[0]))
+            if f.version and f.version[1] and getattr(f, "old_versions", []):
+                defs.append('__asm__(".symver %s,%s@@%s");' % (defname, f.name, f.version[0]))
+            for k, node in enumerate(getattr(f, "old_versions", []) if (f.version and f.version[1]) else []):
+                # an older implementation kept for binary compatibility: name@NODE next to the default name@@NODE'
+                defs.append("%s\n{\n%s\n}" % (fn_proto(f, lang, "%s__o%d" % (f.name, k)), _body(f, lang)))
+                defs.append('__asm__(".symver %s__o%d,%s@%s");' % (f.name, k, f.name, node))
         if lang == "cxx" and tu == 0:
             for t in prog.types:
                 if not isinstance(t, Record) or t.opaque:
@@ -614,14 +629,15 @@ def render(prog):
             defs = [d for g in groups for d in g]
         parts.extend(defs)
         files["tu%d.%s" % (tu, ext)] = "\n\n".join(parts) + "\n"
-    nodes = sorted({x.version[0] for x in prog.functions + prog.variables if x.version})
+    olds = [(node, x.name) for x in prog.functions if x.version and x.version[1] for node in getattr(x, "old_versions", [])]
+    nodes = sorted({x.version[0] for x in prog.functions + prog.variables if x.version} | {n for n, _x in olds})
     if nodes:
         vs = []
         prev = None
         for n in nodes:
-            names = [x.name for x in prog.functions + prog.variables if x.version and x.version[0] == n]
+            names = [x.name for x in prog.functions + prog.variables if x.version and x.version[0] == n] + [nm for nd, nm in olds if nd == n]
             vs.append("%s {\n  global: %s;%s\n}%s;" % (n, "; ".join(sorted(set(names))),
-                                                       "\n  local: *__v;" if prev is None else "", " " + prev if prev else ""))
+                                                       "\n  local: *__v; *__n; *__o[0-9];" if prev is None else "", " " + prev if prev else ""))
             prev = n
         files["version.map"] = "\n".join(vs) + "\n"
     return files
@@ -660,6 +676,7 @@ class GenOpts(object):
         self.flex_array = True
         self.cxx_classes = True
         self.mutual = GEN2          # reference cycles through several records (back edges to records defined later)
+        self.anon_compound = GEN2   # pointers to / const / arrays of anonymous aggregates, anonymous enums, as members
         self.__dict__.update(kw)
 
 
@@ -817,6 +834,25 @@ class Gen(object):
                 fields.append(Field(None if r.random() < 0.6 else self.name("m"), inner))
             elif x < 0.35 and self.o.recursive:
                 fields.append(Field(self.name("m"), Pointer(rec) if rec.name else Pointer(Void())))
+            elif x < 0.43 and self.o.anon_compound and depth < 2 and (self.o.lang == "c" or (depth == 0 and rec.name)):
+                # anonymous types in compound positions: pointer to / const / array of an anonymous struct or union, anonymous enums
+                y = r.random()
+                if y < 0.3:
+                    n_e = r.randint(1, 3)
+                    inner = Enum(None, [(self.name("E").upper(), k) for k in range(n_e)])
+                else:
+                    inner = Record(r.choice(["struct", "union"]) if self.o.unions else "struct", None, [])
+                    inner.fields = self.gen_fields(inner, depth + 1)
+                z = r.random()
+                if z < 0.4:
+                    t = Pointer(inner)
+                elif z < 0.6 and self.o.lang == "c":
+                    t = Qualified(inner, const=True)
+                elif z < 0.8:
+                    t = Array(inner, [r.randint(1, 3)])
+                else:
+                    t = inner if isinstance(inner, Enum) else Pointer(inner)
+                fields.append(Field(self.name("m"), t))
             else:
                 # C++: a class with virtual functions / bases is not allowed inside a union or an anonymous aggregate
                 plain_only = self.o.lang == "cxx" and (depth > 0 or rec.kind == "union")
@@ -1008,14 +1044,23 @@ class Gen(object):
                 t0 = t0.to if not isinstance(t0, Array) else t0.elem
             if isinstance(t0, Record) and t0.name:
                 byvalue.add(id(t0))
+            elif isinstance(t0, Record):
+                walk(t0)
+            elif isinstance(t0, Pointer):
+                # an anonymous aggregate defined in place behind the pointer: its by-value members need complete types
+                while isinstance(t0, (Pointer, Qualified, Array)):
+                    t0 = t0.to if not isinstance(t0, Array) else t0.elem
+                if isinstance(t0, Record) and t0.name is None:
+                    walk(t0)
+
+        def walk(rec):
+            for f in rec.fields:
+                if isinstance(f.type, Record) and f.type.name is None:
+                    walk(f.type)
+                else:
+                    mark(f.type)
         for t in p.types:
             if isinstance(t, Record):
-                def walk(rec):
-                    for f in rec.fields:
-                        if isinstance(f.type, Record) and f.type.name is None:
-                            walk(f.type)
-                        else:
-                            mark(f.type)
                 walk(t)
                 for b in t.bases:
                     mark(b[0])
